@@ -8,7 +8,7 @@
    encoder writes).  The cryptographic acceptance is decided by the check on the implementation
    (independent verifier); not a theorem. *)
 From Coq Require Import Strings.String.
-From LV Require Import Base.Bytes Base.Str Base.Res Model.HeaderEnc Model.Headers Model.Dkim Spec.Rfc5322 Spec.Dkim Proofs.DkimProofs Proofs.DkimBodyProofs Proofs.DkimHeaderProofs.
+From LV Require Import Base.Bytes Base.Str Base.Res Model.HeaderEnc Model.Headers Model.Dkim Spec.Rfc5322 Spec.Dkim Proofs.DkimProofs Proofs.DkimBodyProofs Proofs.DkimHeaderProofs Proofs.DkimShapeCert.
 Local Open Scope nat_scope.
 
 (* For EVERY non-empty sequence of lines without an inner CRLF (any octets otherwise: bare CR, bare LF, NUL,
@@ -45,6 +45,15 @@ Proof.
   - repeat constructor; try discriminate; try reflexivity.
   - repeat constructor.
 Qed.
+
+(* The shape hypothesis is decidable: `certify` (run in the extracted model on the signed header block of every
+   generated case) parses a block into fields and re-checks the result; whenever it answers true the conclusion
+   holds for that block - the block is a concatenation of well-shaped fields and the code's pass is the RFC's
+   canonicalization of each. *)
+Theorem C13_certified_header_blocks : forall ser : bytes, certify ser = true ->
+  exists fs, ser = flat_map sf_text fs /\
+             canon_headers_relaxed ser = flat_map (fun f => spec_field_relaxed (sf_text f)) fs.
+Proof. exact certify_sound. Qed.
 
 (* For EVERY tag list written before b= (any number of tags, any folding inside them, none of them named b,
    no ';' inside a tag), every spelling `n` of the tag name b and every signature text without ';' (any
@@ -83,3 +92,4 @@ Print Assumptions C13_relaxed_body_canonicalization.
 Print Assumptions C13_signature_field_recovers_hashed_text.
 Print Assumptions C13_folded_signature_is_a_tag_value.
 Print Assumptions C13_relaxed_header_canonicalization.
+Print Assumptions C13_certified_header_blocks.
